@@ -1050,13 +1050,51 @@ def sampled_cases(tier, rng, n):
                "data": d2}
 
 
+def sampled_view_cases(seed, n):
+    """above the bounds: larger big arrays, random chains of 1..3 indexing steps (own seeded stream)"""
+    import random
+    rng = random.Random(seed * 7919 + 6)
+    opt = lambda lo, hi: rng.choice([None] + list(range(lo, hi + 1)))
+    for _ in range(n):
+        src, dst = rng.choice(VIEW_SOURCES), rng.choice(VIEW_TARGETS)
+        fns = view_fns(src, dst)
+        if not fns:
+            continue
+        fn = rng.choice(fns)
+        letters, lm = rng.choice(view_contents(src, dst, fn))
+        lens = [rng.choice((0, 0, 1, 2, 3, 5, 8)) for _ in range(rng.randint(3, 12))]
+        big = fill(lens, letters, rng.randrange(len(letters)), lm)
+        rows, view = big, []
+        for _ in range(rng.randint(1, 3)):
+            m = len(rows)
+            kinds = ["slice", "all"] + (["list", "array", "mask"] if m else [])
+            kind = rng.choice(kinds)
+            if kind == "slice":
+                spec = ["slice", opt(-m - 1, m + 1), opt(-m - 1, m + 1), rng.choice((None, 1, 2, 3, -1, -2, -3))]
+            elif kind in ("list", "array"):
+                spec = [kind, [rng.randrange(-m, m) for _ in range(rng.randint(0 if kind == "list" else 1, 7))]]
+            elif kind == "mask":
+                spec = ["mask", [rng.randint(0, 1) for _ in range(m)]]
+            else:
+                spec = ["all"]
+            cols = [opt(-3, 6), opt(-3, 6)] if kind == "all" or rng.random() < 0.3 else None
+            view.append(_st(spec, cols))
+            rows = apply_view(rows, view[-1:])
+        yield {"k": "retarget_view", "src": src, "dst": dst, "fn": fn, "big": big, "view": view}
+
+
 def run(tier="quick", seed=0):
     col = Collector("C06", tier, seed,
                     "exhaustive: every byte 0..255 x every predefined alphabet encoding x every input kind; every string up to "
                     "length L over each alphabet in all single-position case variants; the same with one foreign byte inserted at "
                     "every position; lists of 0..3 rows of length 0..2 x every container kind (+ one foreign byte at every row/position); "
                     "every ordered pair of alphabets x every string up to length Lr over the source alphabet x {as_encoded_array, "
-                    "change_encoding, encode}; distinct = distinct (encoding, input kind, byte content); non-trivial = non-empty content",
+                    "change_encoding, encode}; the same three calls on sources that are not-yet-flattened views (a larger array indexed "
+                    "by a[::-1] / a[idx] / a[mask] / a[i:j] / a[::2] / a[:, c0:c1] and chains, handed over unread): every ordered pair "
+                    "of alphabets x a family of big arrays x every kind of view, and per function one pair x every big array of 2..N "
+                    "rows x every kind of view, and x every slice / mask / index list / column trim of one array; "
+                    "distinct = distinct (encoding, input kind, byte content[, view]); non-trivial = non-empty content "
+                    "(views: and the source really was unflattened when handed over)",
                     budget_s=(55 if tier == "quick" else 560))
     col.bounds = {
         "encodings": ENC_NAMES + ["DNAEncoding", "RNAENcoding", "fresh:acgtn (byte table only)"],
@@ -1066,8 +1104,31 @@ def run(tier="quick", seed=0):
         "lists": "0..3 rows, row length 0..2, content cycling through the alphabet from %s offset, 3 case modes"
                  % ("every" if tier == "thorough" else "every (small alphabets) / every third"),
         "retarget_targets": ENC_NAMES + ["fresh:ACGT", "Base", "Quality"],
+        "retarget_views": {
+            "sources": VIEW_SOURCES, "targets": VIEW_TARGETS,
+            "functions": "as_encoded_array + change_encoding (alphabet sources), + encode (base-encoded sources), encode only (uint8 "
+                         "RaggedArray / ndarray 'Bytes' sources); same-encoding pairs: change_encoding only",
+            "content": "letters on which the call is defined (common prefix for as_encoded_array, common letters for change_encoding, "
+                       "target alphabet in mixed case for text sources) cycling through them, and the full source alphabet "
+                       "(the call may raise)",
+            "(i) every pair": "big arrays with row lengths %r x %s views each (quick: all %d kinds on the first, %r on the second / "
+                              "on raising content); flat arrays of 7 letters x %d strided views"
+                              % (VIEW_SHAPES if tier == "thorough" else VIEW_SHAPES[:2],
+                                 len(standard_views(6, tier == "thorough")), len(standard_views(6, False)), QUICK_FEW,
+                                 len(FLAT_VIEWS) if tier == "thorough" else 3),
+            "(ii) every big array": "%r: %s" % (VIEW_REPRESENTATIVES if tier == "thorough" else VIEW_REPRESENTATIVES[:3],
+                                                "2..4 rows of length 0..3 x 31 view kinds; 5 and 6 rows of length 0..2 x 12 view kinds"
+                                                if tier == "thorough" else "2..4 rows of length 0..2 x 12 view kinds"),
+            "(iii) every view": "%r: row lengths %s: every a[i:j:s] (i, j in None, 0..n, -1, -2; s in None, 2, -1, -2), every mask, every "
+                                "index list of length 1..3, every column trim c0:c1 (None, 0..max, -1, -2) x {all rows, reversed, "
+                                "index list, mask}" % (VIEW_REPRESENTATIVES if tier == "thorough" else VIEW_REPRESENTATIVES[:2],
+                                                       "(2,0,3,1,0,4) and (0,2,1,3)" if tier == "thorough" else "(2,0,3,1)"),
+            "oracle": "plain Python list indexing of the rows (refmodels/alphabets.apply_view); a separate copy of every view is "
+                      "read back first and must agree with it",
+        },
         "numeric": "every byte >= min_code for Quality(33), Digit(48), CigarLen(0)",
-        "sampled": "random strings of length 5..40 above the bounds (seeded)",
+        "sampled": "random strings of length 5..40 above the bounds (seeded); random views: big arrays of 3..12 rows of length "
+                   "0..8, chains of 1..3 random indexing steps (seeded, time permitting)",
     }
     for case in gen_cases(tier, col.rng):
         evaluate(col, case)
@@ -1079,6 +1140,10 @@ def run(tier="quick", seed=0):
             evaluate(col, case)
             if time.time() - col.t0 > col.budget_s:
                 break
+        for case in sampled_view_cases(seed, 200 if tier == "quick" else 20000):
+            if time.time() - col.t0 > col.budget_s:
+                break
+            evaluate(col, case)
     return col.result()
 
 
